@@ -90,6 +90,16 @@ class Outcome:
         return 'Outcome(%s, %r, %s)' % (self.kind, self.value, self.conds)
 
 
+class PSet(list):
+    """a set value: insertion-ordered list without duplicates (identity for objects, equality for plain values)"""
+    def has(self, x):
+        return any(y is x or (isinstance(x, (int, str, bool, float, tuple)) and isinstance(y, (int, str, bool, float, tuple)) and x == y) for y in self)
+
+    def add(self, x):
+        if not self.has(x):
+            self.append(x)
+
+
 class Lam:
     """a lambda value: the node, the environment it closes over and the function it was written in"""
     def __init__(self, node, env, func):
@@ -268,6 +278,10 @@ class PE:
             return
         if isinstance(s, ast.For):
             it = self.expr(s.iter, env, func, depth)
+            if isinstance(it, PSet):
+                it = self.unordered(it)
+            if isinstance(it, dict):
+                it = list(it.keys())
             if isinstance(it, (list, tuple)) and len(it) <= 32:
                 for x in it:
                     self.assign(s.target, x, env, func, depth, s)
@@ -358,6 +372,11 @@ class PE:
                     tgt = e.value if isinstance(e, ast.Starred) else e
                     self.assign(tgt, Opaque('%s[%d]' % (getattr(v, 'text', norm(stmt.value) if hasattr(stmt, 'value') and stmt.value is not None else '?'), i)), env, func, depth, stmt)
         elif isinstance(t, (ast.Attribute, ast.Subscript)):
+            if isinstance(t, ast.Attribute):
+                ob = self._object_of(t.value, env, func, depth)
+                if ob is not None and hasattr(ob, 'pe_setattr') and ob.pe_setattr(self, t.attr, v, stmt, env, func, depth) is not NotImplemented:
+                    self.stores.append((self.loc_text(t, env, func, depth), v, stmt))
+                    return
             if isinstance(t, ast.Subscript):
                 idx = self.index_value(t.slice, env, func, depth)
                 base = self.expr(t.value, env, func, depth) if isinstance(t.value, ast.Name) and isinstance(env.get(t.value.id), (list, Vec)) else None
@@ -375,7 +394,7 @@ class PE:
                         held = None
                     if isinstance(idx, P) and idx.is_const() and idx.const_value().denominator == 1:
                         idx = int(idx.const_value())
-                    if isinstance(held, dict) and isinstance(idx, (str, int)) and not isinstance(idx, bool):
+                    if isinstance(held, dict) and isinstance(idx, (str, int)):
                         held[idx] = v
                         self.substores.append((self.loc_text(t.value, env, func, depth), idx, v, stmt))
                         self.stores.append((self.loc_text(t, env, func, depth), v, stmt))
@@ -643,6 +662,10 @@ class PE:
             if len(e.generators) == 1:
                 g = e.generators[0]
                 it = self.expr(g.iter, env, func, depth)
+                if isinstance(it, PSet):
+                    it = self.unordered(it)
+                if isinstance(it, dict):
+                    it = list(it.keys())
                 if isinstance(it, (list, tuple)) and len(it) <= 32:
                     out = []
                     for x in it:
@@ -700,6 +723,12 @@ class PE:
                     r = self.sub_hook(self, e, base, idx)
                     if r is not NotImplemented:
                         return r
+        if isinstance(e, ast.Attribute):
+            ob = self._object_of(e.value, env, func, depth)
+            if ob is not None:
+                r = ob.pe_getattr(self, e.attr)
+                if r is not NotImplemented:
+                    return r
         key = self.loc_text(e, env, func, depth)
         if key in self.mem:
             return self.mem[key]
@@ -717,6 +746,24 @@ class PE:
             if mf is not None and not any(isinstance(d, ast.Name) and d.id == 'property' or isinstance(d, ast.Attribute) for d in mf.node.decorator_list):
                 return Bound(mf, env.get(e.value.id, Opaque('self')), key)        # a method taken as a value
         return P.atom(key)
+
+    def _object_of(self, e, env, func, depth):
+        """the protocol object (a value with pe_getattr: rule-defined heap objects such as a module tree) denoted by a name / attribute / subscript chain"""
+        if isinstance(e, ast.Name):
+            v = env.get(e.id)
+            return v if hasattr(v, 'pe_getattr') else None
+        if isinstance(e, (ast.Attribute, ast.Subscript)):
+            root = e
+            while isinstance(root, (ast.Attribute, ast.Subscript)):
+                root = root.value
+            if not (isinstance(root, ast.Name) and hasattr(env.get(root.id), 'pe_getattr')):
+                return None
+            try:
+                v = self.expr(e, env, func, depth)
+            except (Incomplete, Raised):
+                return None
+            return v if hasattr(v, 'pe_getattr') else None
+        return None
 
     def _rebound(self, e, env):
         """the root name of location e no longer denotes the symbolic object its text names (it was re-assigned to a value that names itself)"""
@@ -789,6 +836,8 @@ class PE:
             return x
         a, b = const(a), const(b)
         basic = (int, float, str, bool, Fraction, type(None))
+        if isinstance(op, (ast.Is, ast.IsNot)) and hasattr(a, 'pe_id') and hasattr(b, 'pe_id'):
+            return (a is b) == isinstance(op, ast.Is)
         if isinstance(op, (ast.Is, ast.IsNot)):
             if b is None or a is None:
                 other = a if b is None else b
@@ -800,6 +849,11 @@ class PE:
                     return isinstance(op, ast.IsNot)     # symbolic objects (atoms, opaque values, hook-defined objects) are not None
                 return None
             return None
+        if isinstance(op, (ast.In, ast.NotIn)) and isinstance(b, (list, tuple, dict)) and (hasattr(a, 'pe_id') or (isinstance(a, basic) and any(hasattr(x, 'pe_id') for x in b))):
+            if any(getattr(x, 'pe_eq_overridden', False) for x in list(b) + [a]):
+                return None         # the class defines __eq__: membership is decided by it, not by identity
+            r = any(x is a or (isinstance(a, basic) and isinstance(x, basic) and x == a) for x in b)
+            return r if isinstance(op, ast.In) else not r
         if isinstance(op, (ast.In, ast.NotIn)):
             if isinstance(b, (list, tuple, dict, str)) and isinstance(a, basic) and all(isinstance(x, basic) for x in (b if not isinstance(b, dict) else b.keys())):
                 r = a in b
@@ -826,6 +880,13 @@ class PE:
         return None
 
     # ------------------------------------------------------------------------------------------------ calls
+    def unordered(self, ps):
+        """the elements of a set in iteration order: no order is guaranteed (hash / address order), so the evaluation takes the REVERSE of the insertion
+        order and records that an unordered iteration took place (Outcome.user['unordered'])"""
+        if len(ps) > 1:
+            self.user['unordered'] = self.user.get('unordered', 0) + 1
+        return list(reversed(list(ps)))
+
     def apply_value(self, fv, args, kw, depth):
         """call a function value (Lam / Bound); NotImplemented when it is neither"""
         if isinstance(fv, Lam) and depth < self.max_depth + 2:
@@ -881,6 +942,19 @@ class PE:
         ctext = resolved
         if ctext is None and isinstance(e.func, ast.Attribute):
             ctext = '%s.%s' % (self.loc_text(e.func.value, env, func, depth) if isinstance(e.func.value, (ast.Name, ast.Attribute, ast.Subscript, ast.Call)) else norm(e.func.value), e.func.attr)
+        # a method of a rule-defined heap object
+        if isinstance(e.func, ast.Attribute):
+            ob = self._object_of(e.func.value, env, func, depth)
+            if ob is not None and hasattr(ob, 'pe_call_method'):
+                self.calls.append(('%s.%s' % (getattr(ob, 'text', '?'), e.func.attr), args, kw, e))
+                r = ob.pe_call_method(self, e.func.attr, args, kw, depth, e)
+                if r is not NotImplemented:
+                    return r
+                self.calls.pop()
+        if isinstance(e.func, ast.Name) and hasattr(env.get(e.func.id), 'pe_call'):
+            ob = env[e.func.id]
+            self.calls.append((getattr(ob, 'text', e.func.id), args, kw, e))
+            return ob.pe_call(self, args, kw, depth, e)
         # a function VALUE is called: a lambda (possibly picked from a table), or a method taken as a value
         fv = None
         if isinstance(e.func, ast.Name) and isinstance(env.get(e.func.id), (Lam, Bound)):
@@ -906,18 +980,38 @@ class PE:
         if isinstance(e.func, ast.Attribute):
             recv_node = e.func.value
             m = e.func.attr
-            if m in ('append', 'extend') and isinstance(recv_node, ast.Name) and isinstance(env.get(recv_node.id), list) and len(args) == 1:
+            if m in ('append', 'extend') and isinstance(recv_node, ast.Name) and isinstance(env.get(recv_node.id), list) and not isinstance(env.get(recv_node.id), PSet) and len(args) == 1:
                 if m == 'append':
                     env[recv_node.id] = type(env[recv_node.id])(list(env[recv_node.id]) + [args[0]])
                     return None
                 if isinstance(args[0], (list, tuple)):
                     env[recv_node.id] = type(env[recv_node.id])(list(env[recv_node.id]) + list(args[0]))
                     return None
+            if m in ('add', 'discard', 'update') and isinstance(recv_node, (ast.Name, ast.Attribute)):
+                try:
+                    held = self.expr(recv_node, env, func, depth)
+                except Incomplete:
+                    held = None
+                if isinstance(held, PSet):
+                    if m == 'add' and len(args) == 1:
+                        held.add(args[0])
+                        return None
+                    if m == 'discard' and len(args) == 1:
+                        for i_, y in enumerate(list(held)):
+                            if y is args[0] or (isinstance(y, (int, str)) and y == args[0]):
+                                del held[i_]
+                        return None
+                    if m == 'update' and len(args) == 1 and isinstance(args[0], (list, tuple)):
+                        for x in args[0]:
+                            held.add(x)
+                        return None
             if m in ('append', 'extend', 'setdefault', 'update', 'pop', 'insert', 'clear') and not (isinstance(recv_node, ast.Name) and (recv_node.id in ('np', 'math') or isinstance(env.get(recv_node.id), list))):
                 # container methods on a known dict / list reached through an attribute, a subscript or a name: the object itself is updated
                 try:
                     held = self.expr(recv_node, env, func, depth) if isinstance(recv_node, (ast.Name, ast.Attribute, ast.Subscript)) else None
                 except Incomplete:
+                    held = None
+                if isinstance(held, PSet) and m in ('append', 'extend', 'insert'):
                     held = None
                 if isinstance(held, list):
                     if m == 'append' and len(args) == 1:
@@ -1021,7 +1115,11 @@ class PE:
             return self.truth(e.args[0], env, func, depth)
         if n in ('str', 'builtins.str'):
             return str(args[0]) if args and isinstance(args[0], (int, str)) else Opaque('<str>')
+        if n in ('any', 'all', 'builtins.any', 'builtins.all') and len(args) == 1 and isinstance(args[0], (list, tuple)) and all(isinstance(x, bool) for x in args[0]):
+            return any(args[0]) if n.endswith('any') else all(args[0])
         if n in ('tuple', 'list', 'builtins.tuple', 'builtins.list') and args:
+            if isinstance(args[0], PSet):
+                return (tuple if n.endswith('tuple') else list)(self.unordered(args[0]))
             if isinstance(args[0], (list, tuple)):
                 return tuple(args[0]) if n.endswith('tuple') else list(args[0])
             return args[0]
@@ -1033,14 +1131,45 @@ class PE:
             return list(enumerate(args[0]))
         if n in ('zip',) and args and all(isinstance(a, (list, tuple)) for a in args):
             return list(zip(*args))
+        if n in ('set', 'builtins.set', 'frozenset') and len(args) <= 1 and not kw and (not args or isinstance(args[0], (list, tuple))):
+            ps = PSet()
+            for x in (args[0] if args else ()):
+                ps.add(x)
+            return ps
+        if n in ('id', 'builtins.id') and len(args) == 1 and hasattr(args[0], 'pe_id'):
+            return args[0].pe_id
+        if n in ('hasattr', 'builtins.hasattr') and len(args) == 2 and hasattr(args[0], 'pe_hasattr') and isinstance(args[1], str):
+            return args[0].pe_hasattr(args[1])
+        if n in ('getattr', 'builtins.getattr') and len(args) in (2, 3) and hasattr(args[0], 'pe_getattr') and isinstance(args[1], str):
+            r = args[0].pe_getattr(self, args[1])
+            if r is not NotImplemented:
+                return r
+            if len(args) == 3:
+                return args[2]
+            raise Raised('AttributeError(%s)' % args[1])
+        if n in ('itertools.chain', 'chain') and all(isinstance(a, (list, tuple)) for a in args):
+            out = []
+            for a in args:
+                out.extend(a)
+            return out
+        if n in ('isinstance', 'builtins.isinstance') and len(args) == 2 and hasattr(args[0], 'pe_isinstance'):
+            names = [x.strip() for x in norm(e.args[1]).strip('()').split(',') if x.strip()]
+            r = args[0].pe_isinstance(names)
+            if r is not None:
+                return r
         if n in ('isinstance', 'builtins.isinstance') and len(args) == 2:
             v = args[0]
             tname = norm(e.args[1])
-            py = {'int': int, 'float': float, 'str': str, 'bool': bool, 'list': list, 'tuple': tuple, 'dict': dict}
+            py = {'int': int, 'float': float, 'str': str, 'bool': bool, 'list': list, 'tuple': tuple, 'dict': dict, 'OrderedDict': dict, 'collections.OrderedDict': dict}
             if isinstance(v, (int, float, str, bool, list, tuple, dict)) or v is None:
                 names = [x.strip() for x in tname.strip('()').split(',')]
                 if all(x in py for x in names):
                     return isinstance(v, tuple(py[x] for x in names))
+                # classes defined in the package never contain a plain Python value
+                tnodes = e.args[1].elts if isinstance(e.args[1], ast.Tuple) else [e.args[1]]
+                res = [self.model.resolve(func.mod, t_) for t_ in tnodes]
+                if all((r and r in self.model.classes) or norm(t_) in py for r, t_ in zip(res, tnodes)):
+                    return any(norm(t_) in py and isinstance(v, py[norm(t_)]) for t_ in tnodes)
             return self.decide(self.test_text(e, env, func, depth))
         if n in ('numpy.sqrt', 'numpy.floor') and args and isinstance(args[0], Vec):
             fn = p_sqrt if n.endswith('sqrt') else p_floor
